@@ -3,7 +3,7 @@
 import json, sys, os
 sys.path.insert(0, os.path.dirname(os.path.abspath(__file__)))
 from pyvc import propcfg
-from pyvc.manifest_text import TEXT, NA
+from pyvc.manifest_text import ADDED, TEXT, NA
 props = [json.loads(l) for l in open('properties.jsonl')]
 checks = []
 for p in props:
@@ -18,7 +18,7 @@ for p in props:
     evidence_file=f'evidence/{pid}.json',
     replay_cmd_template=f'./check {pid} --replay {{path}}',
     engine='pyvc',
-    level_claimed=dict(category='proof', text=t['level'], design_ref=t.get('design_ref', 'DESIGN.md section 6')),
+    level_claimed=dict(category='proof', text=t['level'] + (' ' + ADDED[pid] if pid in ADDED else ''), design_ref=t.get('design_ref', 'DESIGN.md section 6')),
     level_note=t['note'],
     technique=t['technique'],
   ))
